@@ -578,6 +578,35 @@ func LoadAllContracts(verifDir, repoDir, modPath string) (*ContractSet, error) {
 			return nil, err
 		}
 	}
+	// a clause tagged with a property its unit's props line does not list would never be checked (units are selected
+	// by their props): the unit serves every property one of its clauses is tagged with
+	for _, fc := range cs.Funcs {
+		if fc.Trusted {
+			continue
+		}
+		props := map[string]bool{}
+		for _, p := range fc.Props {
+			props[p] = true
+		}
+		add := func(cls []Clause) {
+			for _, cl := range cls {
+				for _, t := range cl.Props {
+					if !props[t] {
+						props[t] = true
+						fc.Props = append(fc.Props, t)
+					}
+				}
+			}
+		}
+		add(fc.Ensures)
+		add(fc.Requires)
+		for _, cls := range fc.Loops {
+			add(cls)
+		}
+		for _, cls := range fc.AtCall {
+			add(cls)
+		}
+	}
 	return cs, nil
 }
 
